@@ -164,7 +164,19 @@ func (e *kvElection) handleWatchEvent(entry Entry) {
 					zap.Uint64("revision", entry.Revision()),
 				)...,
 			)
-			e.becomeFollower()
+			if e.becomeFollower() {
+				e.mu.RLock()
+				onDemote := e.onDemote
+				e.mu.RUnlock()
+				if onDemote != nil {
+					log.Info("leader_demoted",
+						append(e.logWithContext(e.ctx),
+							zap.String("reason", "leadership_lost_via_watcher"),
+						)...,
+					)
+					onDemote()
+				}
+			}
 		}
 		return
 	}
